@@ -239,8 +239,11 @@ fn small_dec(s: &str) -> Option<(i128, u32)> {
         if *c == b'.' && !seen_dot {
             seen_dot = true;
         } else if c.is_ascii_digit() {
-            m = m * 10 + (*c - b'0') as i128;
             digits += 1;
+            if digits > 15 {
+                return None;
+            }
+            m = m * 10 + (*c - b'0') as i128;
             if seen_dot {
                 scale += 1;
             }
